@@ -108,6 +108,8 @@ def scalar_abs(ctx, v):
 
 @lib('builtins.max')
 def _max(ctx, *args):
+    if len(args) == 1 and isinstance(args[0], Arr) and args[0].ndim == 1 and S.is_z3(args[0].shape[0]):
+        return _max_symbolic(ctx, args[0], 'max')      # max over a 1-D array of symbolic length
     xs = items_of(ctx, args[0]) if len(args) == 1 else list(args)
     xs = [A.unwrap0(x) for x in xs]
     out = xs[0]
@@ -118,6 +120,8 @@ def _max(ctx, *args):
 
 @lib('builtins.min')
 def _min(ctx, *args):
+    if len(args) == 1 and isinstance(args[0], Arr) and args[0].ndim == 1 and S.is_z3(args[0].shape[0]):
+        return _max_symbolic(ctx, args[0], 'min')
     xs = items_of(ctx, args[0]) if len(args) == 1 else list(args)
     xs = [A.unwrap0(x) for x in xs]
     out = xs[0]
@@ -418,6 +422,8 @@ LIB['numpy.s_'] = SIndex()
 
 @lib('numpy.asarray')
 def np_asarray(ctx, v, dtype=None):
+    if isinstance(v, A.Gather) and dtype is None:
+        return v
     return arr(ctx, v, A.dtype_from(ctx, dtype))
 
 
@@ -850,8 +856,57 @@ def np_clip(ctx, a, lo, hi):
     return f(a)
 
 
+@lib('getitem:Gather')
+def _gather_getitem(ctx, g, idx):
+    """g[0] / g[-1]: the first / last selected element (IndexError on an empty selection)."""
+    idx = A.unwrap0(idx)
+    if not (isinstance(idx, int) and idx in (0, -1)):
+        raise Unsupported('selection element other than first/last')
+    ctx.require('selection is non-empty', A.gather_nonempty(ctx, g), exc='IndexError')
+    f, l = A.gather_ends(ctx, g)
+    return g.value(f if idx == 0 else l)
+
+
+def _same_mask(ctx, m1, m2):
+    """Two 1-D boolean masks select the same positions (checked at a fresh, unconstrained index)."""
+    if m1 is m2:
+        return True
+    if not ctx.known(S.eq(m1.shape[0], m2.shape[0])):
+        return False
+    q = ctx.fresh_int('mq')
+    return ctx.known(z3.Implies(z3.And(q >= 0, q < S.z(m1.shape[0])), S.z(S.truth(m1.at((q,)))) == S.z(S.truth(m2.at((q,))))))
+
+
+@lib('numpy.delete')
+def np_delete(ctx, a, obj, axis=None):
+    """np.delete(a, np.where(cond)): the elements of a 1-D array (or of a selection of one) where cond is
+    False, in order - kept as a selection aligned with the source indexing."""
+    if axis is not None or not isinstance(obj, A.WhereIdx):
+        raise Unsupported('np.delete with anything but an np.where(...) index set')
+    cond = obj.mask
+    if isinstance(a, A.Gather):
+        if not (isinstance(cond, A.Gather) and _same_mask(ctx, cond.mask, a.mask)):
+            raise Unsupported('np.delete: index set of a different selection')
+        keep = A.elementwise(ctx, lambda m_: m_, [a.mask], dtype='bool')
+        am, cv, n = a.mask, cond.value, a.mask.shape[0]
+        keep = Arr.from_fn((n,), 'bool', lambda idx: S.and_(S.truth(am.at(idx)), S.not_(S.truth(cv(idx[0])))))
+        g = A.Gather(a.value, keep)
+        g.dtype = a.dtype
+        return g
+    a = arr(ctx, a)
+    if a.ndim != 1 or not isinstance(cond, Arr) or cond.ndim != 1 or not ctx.known(S.eq(a.shape[0], cond.shape[0])):
+        raise Unsupported('np.delete: rank / length')
+    snap, csnap = a.snapshot(), cond.snapshot()
+    keep = Arr.from_fn((a.shape[0],), 'bool', lambda idx: S.not_(S.truth(csnap.at(idx))))
+    g = A.Gather(lambda i: snap.at((i,)), keep)
+    g.dtype = a.dtype
+    return g
+
+
 @lib('numpy.where')
 def np_where(ctx, cond, x=None, y=None):
+    if isinstance(cond, A.Gather) and x is None:
+        return A.WhereIdx(cond)        # positions within the selection where the condition holds
     cond = arr(ctx, cond)
     if x is None:
         return A.WhereIdx(cond)
